@@ -56,6 +56,14 @@ type cluster struct {
 	dropped    map[string]bool        // db whose config deletion was delivered and which was not re-announced since
 	published  bool                   // the current master wrote /storage/state at least once
 
+	// repository faults (see fakeRepo): what the model looked like when the last write of
+	// /storage/state reached the store, and whether the master's last attempt to publish failed
+	// without reaching the store (then - and only then - the published copy may be behind).
+	pubLive      map[models.NodeID]bool
+	pubAssign    map[string]assignment
+	staleAllowed bool
+	faultsFired  int
+
 	log        []string
 	classes    map[string]int
 	nonTrivial bool
@@ -98,6 +106,16 @@ func (c *cluster) onPut(key string, val []byte) {
 		c.q[qAssign] = append(c.q[qAssign], pendingEv{c.repo.rev, &discovery.Event{Type: discovery.ShardAssignmentChanged, Key: key, Value: val}})
 	case key == constants.StorageStatePath:
 		c.published = true
+		// the model is brought up to date before the event is handed to the master, so this is
+		// the state the master has been told about at the moment of this write
+		c.pubLive = map[models.NodeID]bool{}
+		for id, v := range c.viewLive {
+			c.pubLive[id] = v
+		}
+		c.pubAssign = map[string]assignment{}
+		for db, a := range c.viewAssign {
+			c.pubAssign[db] = a // assignments are replaced as a whole, never modified
+		}
 	default:
 		c.fatalf("harness: write to a path the harness does not model: %s", key)
 	}
@@ -225,6 +243,41 @@ func contains(reps []models.NodeID, id models.NodeID) bool {
 	return false
 }
 
+// process hands one event to the master; only inside this call the armed repository faults fire.
+func (c *cluster) process(e *discovery.Event) []firedFault {
+	c.repo.inMaster = true
+	c.repo.fired = nil
+	c.repo.statePuts = nil
+	master.VerifProcessEvent(c.sm, e)
+	c.repo.inMaster = false
+	for _, f := range c.repo.fired {
+		c.logf("    repository fault: %s %s fails (write applied: %v)", f.kind, f.key, f.applied)
+		c.classes["fault:"+f.kind+"@"+e.Type.String()]++
+		if f.applied {
+			c.classes["fault:write-applied-but-error"]++
+		}
+		c.faultsFired++
+	}
+	return c.repo.fired
+}
+
+// afterSync is called after an event whose handler always ends with publishing the state:
+// the published copy may be behind from now on exactly if the last attempt did not reach the store.
+func (c *cluster) afterSync() (failed bool) {
+	n := len(c.repo.statePuts)
+	c.staleAllowed = n > 0 && !c.repo.statePuts[n-1]
+	return c.staleAllowed
+}
+
+func (c *cluster) knownDatabase(name string) bool {
+	for _, db := range c.sm.GetDatabases() {
+		if db.Name == name {
+			return true
+		}
+	}
+	return false
+}
+
 func (c *cluster) pendingTotal() int { return len(c.q[0]) + len(c.q[1]) + len(c.q[2]) }
 
 // deliver hands the oldest pending event of one watcher to the master and checks the oracle.
@@ -255,7 +308,10 @@ func (c *cluster) deliver(qi int) {
 			c.classes["revived-offline-shard"]++
 			c.nonTrivial = true
 		}
-		master.VerifProcessEvent(c.sm, e)
+		c.process(e)
+		if c.afterSync() && revived > 0 {
+			c.classes["revive-while-publish-fails"]++
+		}
 
 	case discovery.NodeFailure:
 		id := models.NodeID(mustAtoi(c, last))
@@ -286,7 +342,15 @@ func (c *cluster) deliver(qi int) {
 		if offline > 0 {
 			c.classes["shard-went-offline"]++
 		}
-		master.VerifProcessEvent(c.sm, e)
+		c.process(e)
+		if c.afterSync() {
+			if reelect > 0 {
+				c.classes["reelect-while-publish-fails"]++
+			}
+			if offline > 0 {
+				c.classes["offline-while-publish-fails"]++
+			}
+		}
 
 	case discovery.DatabaseConfigChanged:
 		c.deliverConfig(e)
@@ -295,10 +359,14 @@ func (c *cluster) deliver(qi int) {
 		name := last
 		c.logf("  deliver drop-database %s", name)
 		c.classes["ev:db-drop"]++
+		known := c.knownDatabase(name)
 		delete(c.viewAssign, name)
 		c.dropped[name] = true
-		master.VerifProcessEvent(c.sm, e)
-		if got := c.etcdAssign(name); got != nil {
+		fired := c.process(e)
+		if known {
+			c.afterSync()
+		}
+		if got := c.etcdAssign(name); got != nil && len(fired) == 0 {
 			c.fatalf("drop of %s handled, but its shard assignment is still in the repository: %s", name, fmtAssignment(got))
 		}
 
@@ -314,12 +382,13 @@ func (c *cluster) deliver(qi int) {
 			c.classes["assignment-after-drop"]++
 		}
 		c.viewAssign[name] = asg
-		master.VerifProcessEvent(c.sm, e)
+		c.process(e)
+		c.afterSync()
 
 	case discovery.ShardAssignmentDeletion:
 		c.logf("  deliver assignment-deleted %s", last)
 		c.classes["ev:assign-deleted"]++
-		master.VerifProcessEvent(c.sm, e)
+		c.process(e)
 
 	default:
 		c.fatalf("harness: unexpected event type %v", e.Type)
@@ -350,11 +419,21 @@ func (c *cluster) deliverConfig(e *discovery.Event) {
 	c.logf("  deliver database-config %s shards=%d rf=%d (registered nodes %v, stored shards %d)", name, shards, rf, live, len(old))
 	c.classes["ev:db-config"]++
 
-	master.VerifProcessEvent(c.sm, e)
+	fired := c.process(e)
 
 	now := c.etcdAssign(name)
 	valid := shards >= 1 && rf >= 1 && rf <= len(live)
 	what := fmt.Sprintf("database %s shards=%d rf=%d over registered nodes %v", name, shards, rf, live)
+	if len(fired) > 0 {
+		// a repository call of this handler failed: either nothing was stored (the assignment is
+		// what it was) or what was stored satisfies the placement claims like any other (below)
+		what += " [repository fault]"
+		if sameAssignment(old, now) {
+			c.classes["db-config-under-fault:assignment-unchanged"]++
+			return
+		}
+		c.classes["db-config-under-fault:assignment-stored"]++
+	}
 	switch {
 	case old == nil && valid:
 		if now == nil {
@@ -402,11 +481,13 @@ func (f clusterFailer) Fatalf(format string, args ...any) { f.c.fatalf(format, a
 // checkState is the oracle on the master's view: in memory (GetStorageState) and as published
 // to the repository for the brokers (/storage/state).
 func (c *cluster) checkState(when string) {
-	c.checkOneState(when+" [GetStorageState]", c.sm.GetStorageState())
+	// what the master hands out from memory must agree with the processed events, whether or
+	// not the repository accepted the publication
+	c.checkOneState(when+" [GetStorageState]", c.sm.GetStorageState(), c.viewLive, c.viewAssign)
 	if !c.published {
 		// nothing written by this master yet (a predecessor's copy may still be there): fine as
-		// long as this master has not been told anything
-		if len(c.viewLive) > 0 || len(c.viewAssign) > 0 {
+		// long as this master has not been told anything, or its last attempt to publish failed
+		if (len(c.viewLive) > 0 || len(c.viewAssign) > 0) && !c.staleAllowed {
 			c.fatalf("%s: the master never published its storage state", when)
 		}
 		return
@@ -419,28 +500,36 @@ func (c *cluster) checkState(when string) {
 	if err := encoding.JSONUnmarshal(data, pub); err != nil {
 		c.fatalf("%s: published storage state does not decode: %v", when, err)
 	}
-	c.checkOneState(when+" [published /storage/state]", pub)
+	if c.staleAllowed {
+		// the master's last attempt to publish did not reach the repository (nothing promises a
+		// retry before the next event): the copy is the one of the last write that arrived
+		c.classes["published-copy-behind-after-failed-sync"]++
+		c.checkOneState(when+" [published /storage/state, last write that reached the repository]", pub, c.pubLive, c.pubAssign)
+		return
+	}
+	c.checkOneState(when+" [published /storage/state]", pub, c.viewLive, c.viewAssign)
 }
 
-func (c *cluster) checkOneState(when string, st *models.StorageState) {
+// checkOneState compares one storage state with a model (live nodes, announced assignments).
+func (c *cluster) checkOneState(when string, st *models.StorageState, viewLive map[models.NodeID]bool, viewAssign map[string]assignment) {
 	if st == nil {
 		c.fatalf("%s: no storage state", when)
 	}
 	// live nodes = delivered node events
-	if len(st.LiveNodes) != len(c.viewLive) {
-		c.fatalf("%s: live nodes %v, expected %v", when, keysOfNodes(st.LiveNodes), keysOfSet(c.viewLive))
+	if len(st.LiveNodes) != len(viewLive) {
+		c.fatalf("%s: live nodes %v, expected %v", when, keysOfNodes(st.LiveNodes), keysOfSet(viewLive))
 	}
 	for id, n := range st.LiveNodes {
-		if !c.viewLive[id] || n.ID != id {
-			c.fatalf("%s: live nodes %v, expected %v (entry %d carries id %d)", when, keysOfNodes(st.LiveNodes), keysOfSet(c.viewLive), id, n.ID)
+		if !viewLive[id] || n.ID != id {
+			c.fatalf("%s: live nodes %v, expected %v (entry %d carries id %d)", when, keysOfNodes(st.LiveNodes), keysOfSet(viewLive), id, n.ID)
 		}
 	}
 	// databases = delivered assignments
-	if len(st.ShardAssignments) != len(c.viewAssign) || len(st.ShardStates) != len(c.viewAssign) {
+	if len(st.ShardAssignments) != len(viewAssign) || len(st.ShardStates) != len(viewAssign) {
 		c.fatalf("%s: databases with assignment %v / with shard states %v, expected %v", when,
-			keysOfStr(st.ShardAssignments), keysOfStr(st.ShardStates), keysOfStr(c.viewAssign))
+			keysOfStr(st.ShardAssignments), keysOfStr(st.ShardStates), keysOfStr(viewAssign))
 	}
-	for db, want := range c.viewAssign {
+	for db, want := range viewAssign {
 		asg, ok := st.ShardAssignments[db]
 		if !ok || asg == nil {
 			c.fatalf("%s: database %s has no shard assignment in the state", when, db)
@@ -460,25 +549,25 @@ func (c *cluster) checkOneState(when string, st *models.StorageState) {
 			if ss.ID != sid || fmt.Sprint(ss.Replica.Replicas) != fmt.Sprint(reps) {
 				c.fatalf("%s: %s/shard %d: state carries id %d replicas %v, assignment says %v", when, db, sid, ss.ID, ss.Replica.Replicas, reps)
 			}
-			alive := anyLive(reps, c.viewLive, -1)
+			alive := anyLive(reps, viewLive, -1)
 			switch {
 			case alive:
 				if ss.State != models.OnlineShard {
 					c.fatalf("%s: %s/shard %d replicas %v, live nodes %v: a replica is alive but the shard is not online (state=%d leader=%d)",
-						when, db, sid, reps, keysOfSet(c.viewLive), ss.State, ss.Leader)
+						when, db, sid, reps, keysOfSet(viewLive), ss.State, ss.Leader)
 				}
-				if !contains(reps, ss.Leader) || !c.viewLive[ss.Leader] {
+				if !contains(reps, ss.Leader) || !viewLive[ss.Leader] {
 					c.fatalf("%s: %s/shard %d replicas %v, live nodes %v: leader %d is not an alive replica of the shard",
-						when, db, sid, reps, keysOfSet(c.viewLive), ss.Leader)
+						when, db, sid, reps, keysOfSet(viewLive), ss.Leader)
 				}
 			default:
 				if ss.State == models.OnlineShard {
 					c.fatalf("%s: %s/shard %d replicas %v, live nodes %v: no replica is alive but the shard is online (leader=%d)",
-						when, db, sid, reps, keysOfSet(c.viewLive), ss.Leader)
+						when, db, sid, reps, keysOfSet(viewLive), ss.Leader)
 				}
 				if ss.State != models.OfflineShard || ss.Leader != models.NoLeader {
 					c.fatalf("%s: %s/shard %d replicas %v, live nodes %v: offline shard must be OfflineShard without leader, got state=%d leader=%d",
-						when, db, sid, reps, keysOfSet(c.viewLive), ss.State, ss.Leader)
+						when, db, sid, reps, keysOfSet(viewLive), ss.State, ss.Leader)
 				}
 			}
 		}
@@ -539,6 +628,8 @@ func (c *cluster) failover() {
 	c.viewAssign = map[string]assignment{}
 	c.dropped = map[string]bool{}
 	c.published = false
+	c.staleAllowed = false
+	c.pubLive, c.pubAssign = nil, nil
 	c.sm = master.NewStateManager(context.Background(), c.repo, nil)
 	ctx := context.Background()
 	for qi, spec := range []struct {
@@ -565,7 +656,25 @@ func (c *cluster) failover() {
 // ---- the history test -----------------------------------------------------------------------
 
 func TestMasterHistory(t *testing.T) {
-	rapid.Check(t, func(t *rapid.T) {
+	rapid.Check(t, func(t *rapid.T) { masterHistory(t, "TestMasterHistory", false) })
+}
+
+// TestMasterFaultHistory: the same histories while the repository fails under the master: the
+// generator arms fault rules ("of the master's Puts of /storage/state from now on, skip k, then
+// fail the next n" - likewise for the Put/Get/Delete of shard assignments and the List of the
+// registered nodes; a failing write may or may not have reached the store). After the last rule
+// is used up the churn continues without faults. Oracle: GetStorageState always agrees with the
+// processed events; the published copy agrees with them unless the master's last attempt to
+// publish failed (then it is the copy of the last write that arrived), and agrees again after
+// the next event that publishes; a stored shard assignment is either untouched or a valid one.
+func TestMasterFaultHistory(t *testing.T) {
+	rapid.Check(t, func(t *rapid.T) { masterHistory(t, "TestMasterFaultHistory", true) })
+}
+
+var faultKinds = []string{fkPutState, fkPutState, fkPutState, fkPutState, fkPutState, fkPutAssign, fkPutAssign, fkGetAssign, fkListNodes, fkDeleteAssign}
+
+func masterHistory(t *rapid.T, group string, withFaults bool) {
+	{
 		pinRandom(rapid.Int64().Draw(t, "randSeed"))
 		c := newCluster(t)
 		defer c.close()
@@ -600,6 +709,13 @@ func TestMasterHistory(t *testing.T) {
 			c.classes["mode:lag"]++
 		} else {
 			c.classes["mode:in-order"]++
+		}
+		armsLeft, churnNext := 0, false
+		if withFaults {
+			armsLeft = rapid.IntRange(1, 6).Draw(t, "faultRules")
+			if steps < 10 {
+				steps += 10
+			}
 		}
 
 		for i := 0; i < steps; i++ {
@@ -636,6 +752,16 @@ func TestMasterHistory(t *testing.T) {
 			add("shrink", 1, len(have) > 0)
 			add("drop", 1, len(have) > 0)
 			add("failover", 1, allowFailover)
+			// faults are armed in the first three quarters of the history: the churn goes on after them
+			add("arm-fault", 5, armsLeft > 0 && len(c.repo.rules) < 2 && i <= steps*3/4)
+			if churnNext && len(up)+len(down) > 0 {
+				// a fault on the publication was just armed: half of the time the next operation
+				// is a node failure / start, so that the fault meets the event C18 is about
+				kinds = kinds[:0]
+				add("node-up", 1, len(down) > 0)
+				add("node-down", 2, len(up) > 0)
+			}
+			churnNext = false
 			if lag {
 				add("deliver", 10, c.pendingTotal() > 0)
 			}
@@ -692,6 +818,24 @@ func TestMasterHistory(t *testing.T) {
 			case "failover":
 				c.classes["op:failover"]++
 				c.failover()
+			case "arm-fault":
+				armsLeft--
+				ru := &faultRule{
+					kind:  rapid.SampledFrom(faultKinds).Draw(t, "faultKind"),
+					skip:  rapid.SampledFrom([]int{0, 0, 0, 0, 1, 2, 3}).Draw(t, "faultSkip"),
+					times: rapid.SampledFrom([]int{1, 1, 1, 2, 3, 4}).Draw(t, "faultTimes"),
+				}
+				if strings.HasPrefix(ru.kind, "put:") || strings.HasPrefix(ru.kind, "delete:") {
+					ru.applied = rapid.IntRange(0, 3).Draw(t, "faultWriteApplied") == 0
+				}
+				c.logf("op arm-fault: of the master's calls %s skip %d, fail the next %d (write applied: %v)", ru.kind, ru.skip, ru.times, ru.applied)
+				c.repo.rules = append(c.repo.rules, ru)
+				churnNext = ru.kind == fkPutState && rapid.Bool().Draw(t, "churnNext")
+				if ru.times > 1 {
+					c.classes["fault-rule:for-a-while"]++
+				} else {
+					c.classes["fault-rule:once"]++
+				}
 			case "deliver":
 				var nonEmpty []int
 				for qi := range c.q {
@@ -705,7 +849,7 @@ func TestMasterHistory(t *testing.T) {
 				}
 				c.deliver(qi)
 			}
-			if kind != "deliver" && kind != "failover" {
+			if kind != "deliver" && kind != "failover" && kind != "arm-fault" {
 				c.classes["op:"+kind]++
 			}
 			if !lag {
@@ -713,9 +857,32 @@ func TestMasterHistory(t *testing.T) {
 			}
 		}
 		// the faults stop: everything still in flight arrives
+		if len(c.repo.rules) > 0 {
+			c.classes["fault-rule-unused-at-end"]++
+			c.repo.rules = nil
+		}
 		c.logf("quiesce")
 		c.drain()
+		if c.staleAllowed {
+			// the last attempt to publish failed and no later event published: the next event
+			// that publishes (here: a storage node renews its registration) must bring the
+			// published copy back in line (checked by deliver -> checkState)
+			c.classes["quiesced-with-published-copy-behind"]++
+			id := pool[0]
+			if live := c.etcdLive(); len(live) > 0 {
+				id = live[0]
+			}
+			c.logf("op node-reregister %d (forces the next publication)", id)
+			c.nodeRegister(id)
+			c.drain()
+			if c.staleAllowed {
+				c.fatalf("harness: publication failed although no fault is armed")
+			}
+		}
 		c.checkConverged()
+		if withFaults && c.faultsFired > 0 {
+			c.classes["history-with-fired-fault"]++
+		}
 
 		cls := make([]string, 0, len(c.classes))
 		for k := range c.classes {
@@ -723,8 +890,9 @@ func TestMasterHistory(t *testing.T) {
 		}
 		sort.Strings(cls)
 		canon := strings.Join(c.log, "\n")
-		ev.Case("TestMasterHistory", canon, c.nonTrivial, cls, map[string]any{"pool": pool, "lag": lag, "history": c.log})
-	})
+		nonTrivial := c.nonTrivial && (!withFaults || c.faultsFired > 0)
+		ev.Case(group, canon, nonTrivial, cls, map[string]any{"pool": pool, "lag": lag, "history": c.log})
+	}
 }
 
 func minRev(c *cluster) int64 {
